@@ -48,6 +48,7 @@ def cases(draw, tier, aggs=AGGS, max_nd=None, big=True):
     if agg == "valid_count" and not spec["ignore"]:
         rmas = [r for r in Q.RMAS if r != "plain"]
     spec["rma"] = draw(st.sampled_from(rmas))
+    spec["via"] = draw(st.sampled_from(["method", "method", "func_tracing_off", "explicit_N"]))
     spec["xdtypes"] = draw(st.lists(st.sampled_from(Q.INT_DTYPES), min_size=len(spec["dims"]),
                                     max_size=len(spec["dims"])))
     spec["xexplicit"] = draw(st.booleans())
@@ -97,8 +98,22 @@ def check(case, rec):
 
     with libcall("ccube(...)"):
         cc, _ = Q.make_ccube(case, dense)
+    via = case.get("via", "method")
+    if via == "explicit_N" and agg == "count":
+        Narg = N  # the documented N= argument, given although the dimensions already determine it
     with libcall("ccube.%s" % agg):
-        res = Q.call_agg(cc, agg, farg, warg, case["ignore"], case["rma"], N=Narg)
+        if via == "func_tracing_off":
+            # the same aggregate through an explicit function object built with tracing switched off
+            from catii import ffuncs
+
+            ra = Q.rma_arg(case["rma"])
+            if agg == "count":
+                fobj = ffuncs.ffunc_count(warg, Narg, case["ignore"], ra, tracing=False)
+            else:
+                fobj = getattr(ffuncs, "ffunc_" + agg)(farg, warg, case["ignore"], ra, tracing=False)
+            res = cc.calculate([fobj])[0]
+        else:
+            res = Q.call_agg(cc, agg, farg, warg, case["ignore"], case["rma"], N=Narg)
     gv, gm = Q.normalise(res, case["rma"], "ccube.%s" % agg)
     gv, gm = fix0d(gv, gm, exp_v)
     Q.compare("ccube.%s" % agg, gv, gm, exp_v, exp_m, tol_abs=tol)
@@ -120,7 +135,7 @@ def check(case, rec):
     Q.compare("xcube.%s" % agg, xv, xm, ev, em, tol_abs=tol)
 
     w = case["weights"]
-    rec.note("agg=" + agg, "nd=%d" % nd, "ignore=%s" % case["ignore"],
+    rec.note("agg=" + agg, "nd=%d" % nd, "ignore=%s" % case["ignore"], "via=" + case.get("via", "method"),
              "weights=" + ("none" if w is None else w["kind"] + ("/" + w.get("form", "") if w["kind"] == "array" else "")
                            + ("/rough" if w is not None and w.get("rough") else "")),
              "rma=" + (case["rma"] if isinstance(case["rma"], str) else "tuple"))
